@@ -99,6 +99,7 @@ fn oracle(c: &Case, st: &mut Stats) -> Result<(), String> {
   let mut msgs: Vec<Message> = Vec::new();
   let mut expect: Obs = BTreeMap::new();
   let (mut at, mut below) = (0, 0);
+  let mut total_big = 0;
   for (gi, g) in c.groups.iter().enumerate() {
     let mut m = g.m.0.clone();
     if !seen.insert(m.clone()) {
@@ -106,7 +107,14 @@ fn oracle(c: &Case, st: &mut Stats) -> Result<(), String> {
       m.push(0xEE);
       seen.insert(m.clone());
     }
-    let size = (t as i64 + g.delta as i64).max(1) as usize;
+    // now and then one large group (sizes around powers of two)
+    let size = if g.delta == 8 && g.m.len() % 5 == 0 && total_big == 0 {
+      total_big += 1;
+      st.class("large-group(255..2049 reports)");
+      [255usize, 256, 257, 1023, 1024, 1025, 2049][g.m.len() / 5 % 7]
+    } else {
+      (t as i64 + g.delta as i64).max(1) as usize
+    };
     let mg = starx::mg(&m, t, c.epoch.as_bytes());
     let rnd = starx::local_rnd(&mg);
     let mut auxes = Vec::new();
